@@ -120,6 +120,10 @@ class Symbol(ExpressionToken):
 
         extern_mapping = compiler.extern_symbols_mapping.get(self.name)
         if extern_mapping:
+            # The file's own definition takes precedence over an exported one
+            # and may still follow, so an exported symbol is only final once
+            # everything has been compiled
+            not_ready()
             extern = compiler.symbols.get(extern_mapping[1])
             if extern:
                 return extern
